@@ -58,6 +58,9 @@ def cases(shard, nshards, seed, tier):
     for i in range(n):
         if mine():
             yield {"family": "generated", "i": i}
+    # more than ten thousand residue numbers in one table (solvent of a large entry) next to two short RNA chains
+    if mine():
+        yield {"family": "ten-thousand-residues"}
     for fn in gen3d.corpus_files():
         if fn.endswith(".gz") or (tier == "quick" and os.path.getsize(os.path.join(core.REPO, fn)) > 300_000):
             continue
@@ -277,8 +280,47 @@ def diff_maps(a, b):
     return None
 
 
+def _ten_thousand(case, rec):
+    from rnapolis import parser_v2, tertiary_v2
+
+    s = gen3d.load("tests/1A1T_1_B.cif", 1)
+    tmpl = gentab.template_rows(s, max_res=4, start=0)
+    rows = []
+    nums = {}
+    for r in tmpl:
+        nums.setdefault((r["resseq"], r["icode"]), len(nums) + 1)
+    for ch in ("A", "B"):
+        for r in tmpl:
+            rows.append(dict(r, chain=ch, resseq=nums[(r["resseq"], r["icode"])], icode=None, model=1, alt=None, occ=1.0, b=0.0, x=round(r["x"] + (40.0 if ch == "B" else 0.0), 3)))
+    # waters: 5 120 per chain, numbered upwards from 101 (mmCIF holds numbers beyond 9999)
+    for ch in ("A", "B"):
+        for i in range(5120):
+            rows.append({"rec": "HETATM", "serial": 0, "name": "O", "alt": None, "resname": "HOH", "chain": ch, "resseq": 101 + i + (5120 if ch == "B" else 0), "icode": None,
+                         "x": round(100.0 + (i % 40) * 3.1, 3), "y": round((i // 40 % 40) * 3.1, 3), "z": round((i // 1600) * 3.1 + (20.0 if ch == "B" else 0.0), 3),
+                         "occ": 1.0, "b": 0.0, "element": "O", "charge": None, "model": 1})
+    for i, r in enumerate(rows, 1):
+        r["serial"] = i
+    amap, order = abstract_map(rows)
+    text = emit.emit_cif(rows)
+    det = lambda extra=None: {"case": {"family": "ten-thousand-residues", "residues": len(order)}, "info": extra}
+    rec.mark_nontrivial(True)
+    try:
+        m1, _ = v1_map(emit.read_text(text, ".cif"))
+        m2, _ = v2_map(tertiary_v2.Structure(parser_v2.parse_cif_atoms(text)))
+    except Exception as e:
+        rec.violation("readers.no-crash", det(repr(e)[:300]), mechanism=f"crash:{type(e).__name__}")
+        return
+    for name, m in (("v1-cif", m1), ("v2-cif", m2)):
+        d = diff_maps(amap, m)
+        rec.check("residues.same-set", d is None or "only-first" not in d, lambda: det({"reader": name, "vs-table": d, "residues-read": len(m)}))
+        rec.check("residues.same-atoms-and-coordinates", d is None or "only-first" in d, lambda: det({"reader": name, "vs-table": d}))
+
+
 def run_case(case, rec):
     from rnapolis import parser, parser_v2, tertiary_v2
+
+    if case["family"] == "ten-thousand-residues":
+        return _ten_thousand(case, rec)
 
     seed = os.environ.get("VERIF_SEED", "0")
     if case["family"] == "generated":
